@@ -28,8 +28,8 @@
 (* message and stays blocked until a receiver has taken it (rendezvous).   *)
 (* A goroutine exists from the `go` statement on (spawned[p]).             *)
 (*                                                                         *)
-(* Checked by TLC for every N in 0..4 (thorough: ..5) and numRoutines W in *)
-(* -1..4 (the check generates one cfg per pair):                           *)
+(* Checked by TLC for every N in 0..4 and numRoutines W in -1..4 (the     *)
+(* thorough tier adds some pairs with N = 5 or W = 5; one cfg per pair):   *)
 (*   ResultOrder     the returned slice is [F(a[1]), ..., F(a[N])]         *)
 (*   NoSendOnClosed  no worker sends (or is blocked sending) on a closed   *)
 (*                   `out`                                                 *)
